@@ -39,6 +39,7 @@ def gen_cases(ctx):
         ins = [rand_vec(rng, n, rng.choice(["generic", "normalised"])) for _ in range(nins)]
         if n <= 6:      # superpositions with exact zeros and purely real / imaginary amplitudes, e.g. (|00> + i|11>)/sqrt 2
             ins.append(rand_vec(rng, n, "axis"))
+            ins.append(rand_vec(rng, n, "dominant"))   # nearly a basis state: control branches of tiny, non-zero weight
             if n >= 2:
                 v = [0.0] * (2 << n); v[0] = 0.7071067811865476; v[(2 << n) - 1] = 0.7071067811865476
                 ins.append([float2bits(x) for x in v])
